@@ -387,7 +387,8 @@ func init() {
 				}
 				for _, s := range pn.Conn.Out {
 					// (its write had been handled before the removal began: nothing of it was in flight)
-					if s.Stale && s.Seq > pn.Conn.RemovedAt && d.pnPending > 0 {
+					// (and a timer callback that began before the removal had returned was in flight too)
+					if s.Stale && s.Seq > pn.Conn.RemovedAt && s.OpSeq > pn.Conn.RemovedAt && d.pnPending > 0 {
 						w.Violate("C10/write-to-removed-connection", "%s wrote to the removed connection of PN at %d (removed at %d): %s", s.Task, s.Seq, pn.Conn.RemovedAt, DescribeDatagram(s.D, s.Raw))
 					}
 				}
